@@ -128,28 +128,42 @@ def newton_setup():
     from ocean_science_utilities.wavephysics.balance.solvers import numba_newton_raphson
     from ocean_science_utilities.wavephysics.balance.wam_tail_stress import log_dimensionless_critical_height
 
+    # every test function records the point it is evaluated at (log, cnt are mutable arrays)
     @numba.njit
-    def tf0(x, a, b, c):
+    def rec(x, log, cnt):
+        i = cnt[0]
+        if i < log.shape[0]:
+            log[i] = x
+        cnt[0] = i + 1
+
+    @numba.njit
+    def tf0(x, a, b, c, log, cnt):
+        rec(x, log, cnt)
         return a * x + b
 
     @numba.njit
-    def tf1(x, a, b, c):
+    def tf1(x, a, b, c, log, cnt):
+        rec(x, log, cnt)
         return np.exp(x) - a
 
     @numba.njit
-    def tf2(x, a, b, c):
+    def tf2(x, a, b, c, log, cnt):
+        rec(x, log, cnt)
         return x * x * x - a * x + b
 
     @numba.njit
-    def tf3(x, a, b, c):
+    def tf3(x, a, b, c, log, cnt):
+        rec(x, log, cnt)
         return np.tanh(a * (x - b)) + c
 
     @numba.njit
-    def tf4(x, a, b, c):
+    def tf4(x, a, b, c, log, cnt):
+        rec(x, log, cnt)
         return log_dimensionless_critical_height(x, a, b, c)
 
     @numba.njit
-    def tf5(x, a, b, c):
+    def tf5(x, a, b, c, log, cnt):
+        rec(x, log, cnt)
         u = b / (c - x)
         return a * (u * u) - np.exp(x)
 
@@ -165,15 +179,27 @@ def do_newton(c):
     hlo = unhx(c["hlo"]); hhi = unhx(c["hhi"])
     hlo = -np.inf if math.isnan(hlo) else hlo
     hhi = np.inf if math.isnan(hhi) else hhi
+    log = np.zeros(1024); cnt = np.zeros(1, dtype=np.int64)
+    args = (a, b, cc, log, cnt)
+
+    def trace():
+        return [hx(v) for v in log[:min(int(cnt[0]), log.shape[0])]]
     try:
-        x = _newton["solver"](f, unhx(c["guess"]), (a, b, cc), (hlo, hhi), int(c["maxit"]), bool(c["aitken"]),
-                              unhx(c["atol"]), unhx(c["rtol"]), unhx(c["h"]), False, bool(c["eom"]),
-                              bool(c["relstep"]), "", unhx(c["relax"]))
-        return {"status": "ok", "x": hx(x)}
+        if c.get("use_defaults"):
+            # the solver's own default arguments (what wam_tail_stress and stress.py rely on)
+            if math.isinf(hlo) and math.isinf(hhi) and hlo < 0 < hhi:
+                x = _newton["solver"](f, unhx(c["guess"]), args)
+            else:
+                x = _newton["solver"](f, unhx(c["guess"]), args, (hlo, hhi))
+        else:
+            x = _newton["solver"](f, unhx(c["guess"]), args, (hlo, hhi), int(c["maxit"]), bool(c["aitken"]),
+                                  unhx(c["atol"]), unhx(c["rtol"]), unhx(c["h"]), False, bool(c["eom"]),
+                                  bool(c["relstep"]), "", unhx(c["relax"]))
+        return {"status": "ok", "x": hx(x), "trace": trace()}
     except ZeroDivisionError:
-        return {"status": "F0"}
+        return {"status": "F0", "trace": trace()}
     except ValueError as e:
-        return {"status": "F2" if "no convergence" in str(e) else "F1"}
+        return {"status": "F2" if "no convergence" in str(e) else "F1", "trace": trace()}
 
 
 _j = {}
